@@ -63,8 +63,11 @@ P.update({
             'uninterpreted f, c, p; penalty and_/or_/not_ zero-sets.', 'DESIGN.md#c17', ''),
     'C20': (True, 'model_checking',
             'Operation programs over two real Monitors (call, extend, prepend, +, slices, int/list index) with solver-quantified x, y (scalar or vector), ids and '
-            'k != 0: after every operation each monitor equals the harness shadow list record by record; operands are never altered. In-memory half only.',
-            'DESIGN.md#c20', 'FILE HALF NOT CLAIMED (LoggingMonitor / munge round trips): decimal float formatting has no solver encoding.'),
+            'k != 0: after every operation each monitor equals the harness shadow list record by record; operands are never altered. File half: a real '
+            'LoggingMonitor / write_raw|support|converge_file writes records whose symbolic scalars print as tokens that the real readers (logfile_reader, '
+            'read_trajectories, read_history, read_raw|support|converge_file) evaluate back to the same symbols; ids are symbolic integers or None: one entry per '
+            'logged call, iteration/id, parameters, costs and shapes as recorded.',
+            'DESIGN.md#c20', 'The decimal text of floats is outside (tokens bypass formatting; only inf/nan/-inf and replayed witnesses use real formatting).'),
 })
 P.update({
     'C16': (True, 'model_checking',
